@@ -17,6 +17,7 @@ import (
 	"strings"
 	"sync"
 	"sync/atomic"
+	"syscall"
 	"time"
 
 	"git.torproject.org/pluggable-transports/snowflake.git/v2/common/util"
@@ -394,15 +395,83 @@ func (r *vRelay) waitConn(key string, d time.Duration) *vRelayConn {
 	}
 }
 
-// vClosedPort returns a loopback port on which nothing listens.
-func vClosedPort(host string) int {
-	ln, err := vListen(host, 0)
+// vRefusingPort returns a 127.0.0.1 port that refuses connections and cannot
+// be taken by any other process meanwhile: a socket bound to it but never
+// listening, kept open for the life of the test process. (A port obtained by
+// listen+close could be re-used by a parallel harness process's listener.)
+func vRefusingPort() int {
+	fd, err := syscall.Socket(syscall.AF_INET, syscall.SOCK_STREAM, 0)
 	if err != nil {
 		return 1
 	}
-	p := ln.Addr().(*net.TCPAddr).Port
-	ln.Close()
-	return p
+	if err = syscall.Bind(fd, &syscall.SockaddrInet4{Port: 0, Addr: [4]byte{127, 0, 0, 1}}); err != nil {
+		syscall.Close(fd)
+		return 1
+	}
+	sa, err := syscall.Getsockname(fd)
+	if err != nil {
+		syscall.Close(fd)
+		return 1
+	}
+	if in4, ok := sa.(*syscall.SockaddrInet4); ok {
+		return in4.Port
+	}
+	return 1
+}
+
+// ---- the proxy's relay dials, seen in-process ------------------------------------------
+
+// vDialLog records the addresses the proxy's WebSocket dialer connects to
+// (websocket.DefaultDialer.NetDial is the library's own seam; the dial itself
+// is unchanged). Used to tell the proxy's connections at a listener from stray
+// ones made by unrelated processes on the same host.
+type vDialLog struct {
+	mu    sync.Mutex
+	addrs map[string]int
+}
+
+var vDials = &vDialLog{addrs: map[string]int{}}
+
+// vNormAddr: "ip:port" with IPv4-mapped IPv6 literals reduced to IPv4, the
+// socket they really connect to.
+func vNormAddr(addr string) string {
+	host, port, err := net.SplitHostPort(addr)
+	if err != nil {
+		return addr
+	}
+	if ip := net.ParseIP(host); ip != nil {
+		if v4 := ip.To4(); v4 != nil {
+			host = v4.String()
+		} else {
+			host = ip.String()
+		}
+	}
+	return net.JoinHostPort(host, port)
+}
+
+func vInstallDialLog() {
+	websocket.DefaultDialer.NetDial = func(network, addr string) (net.Conn, error) {
+		vDials.mu.Lock()
+		vDials.addrs[vNormAddr(addr)]++
+		vDials.mu.Unlock()
+		return net.Dial(network, addr)
+	}
+}
+
+func (l *vDialLog) count(addr string) int {
+	l.mu.Lock()
+	defer l.mu.Unlock()
+	return l.addrs[vNormAddr(addr)]
+}
+
+func (l *vDialLog) all() map[string]int {
+	l.mu.Lock()
+	defer l.mu.Unlock()
+	out := map[string]int{}
+	for k, v := range l.addrs {
+		out[k] = v
+	}
+	return out
 }
 
 // ---- scripted broker ---------------------------------------------------------------
@@ -597,11 +666,12 @@ type vDump struct {
 }
 
 const (
-	vfHandler = "(*SnowflakeProxy).datachannelHandler"
-	vfRun     = "(*SnowflakeProxy).runSession"
-	vfStart   = "(*SnowflakeProxy).Start"
-	vfRet     = "(*tokens_t).ret"
-	vfGet     = "(*tokens_t).get"
+	vfHandler   = "(*SnowflakeProxy).datachannelHandler"
+	vfHandlerGo = "makePeerConnectionFromOffer.func1.gowrap"
+	vfRun       = "(*SnowflakeProxy).runSession"
+	vfStart     = "(*SnowflakeProxy).Start"
+	vfRet       = "(*tokens_t).ret"
+	vfGet       = "(*tokens_t).get"
 )
 
 func vAnalyze() vDump {
@@ -611,7 +681,9 @@ func vAnalyze() vDump {
 		g := g
 		inRet := g.FirstFrameWith(vfRet) != "" && strings.HasPrefix(g.State, "chan receive")
 		inGet := g.FirstFrameWith(vfGet) != "" && strings.HasPrefix(g.State, "chan send")
-		isHandler := g.FirstFrameWith(vfHandler) != ""
+		// the second form is the go-statement wrapper of a handler that was
+		// started but has not run yet
+		isHandler := g.FirstFrameWith(vfHandler) != "" || g.FirstFrameWith(vfHandlerGo) != ""
 		isMain := g.FirstFrameWith(vfStart) != ""
 		if inRet {
 			d.ParkedRet++
